@@ -117,6 +117,15 @@ Theorem C09_accept_connection_failure_no_event : forall s id app tr clock s' e,
   lookup id (sv_reqs s) = Some (RConnection app tr) -> server_accept s id clock = (s', RErr e) -> exists w, e = SWire w.
 Proof. exact accept_connection_failure_no_event. Qed.
 
+(* rejecting a request - of any kind, outstanding or not - never connects the session, never changes the application name and
+   never touches a stream *)
+Theorem C09_reject_keeps_connection : forall s id code d clock s' r,
+  server_reject s id code d clock = (s', r) ->
+  sv_app s' = sv_app s /\ sv_connected s' = sv_connected s /\ sv_streams s' = sv_streams s /\ sv_next_stream s' = sv_next_stream s /\
+  sv_next_req s' = sv_next_req s.
+Proof. exact reject_keeps_connection. Qed.
+
+Print Assumptions C09_reject_keeps_connection.
 Print Assumptions C09_accept_connection_stores_app.
 Print Assumptions C09_accept_connection_failure_no_event.
 Print Assumptions C09_invariant_reachable.
